@@ -31,6 +31,7 @@ type ckWrite struct {
 	runid    string // "" = not written
 	version  string // "" = not written
 	clearRun bool   // the run id field was removed afterwards (earlier ClearCheckpoint)
+	noOffset bool   // only run id / version were written (the offset of this source is absent in that db)
 }
 
 type c14State struct {
@@ -76,8 +77,11 @@ func drawC14(t *rapid.T) *c14State {
 				w.runid = "" // partially written checkpoint
 			}
 		}
+		if !seen[k] && w.runid != "" && rapid.IntRange(0, 11).Draw(t, "noOffset") == 5 {
+			w.noOffset = true // a partially written / partially cleared checkpoint: run id and version, no offset
+		}
 		seen[k] = true
-		w.clearRun = rapid.IntRange(0, 9).Draw(t, "cleared") == 0
+		w.clearRun = !w.noOffset && rapid.IntRange(0, 9).Draw(t, "cleared") == 0
 		st.writes = append(st.writes, w)
 	}
 	for i := rapid.IntRange(0, 3).Draw(t, "nuser"); i > 0; i-- {
@@ -113,7 +117,9 @@ func (st *c14State) apply(srv *mredis.Server) map[int]*ckView {
 		if w.version != "" {
 			h[w.src+"-"+utils.CheckpointVersion] = w.version
 		}
-		h[w.src+"-"+utils.CheckpointOffset] = strconv.FormatInt(w.offset, 10)
+		if !w.noOffset {
+			h[w.src+"-"+utils.CheckpointOffset] = strconv.FormatInt(w.offset, 10)
+		}
 		if w.clearRun {
 			delete(h, w.src+"-"+utils.CheckpointRunId)
 		}
